@@ -161,6 +161,19 @@ def is_frozen(o):
 _CLS = {}
 
 
+class GHolder[T](State):
+    x: T
+
+
+def make_generic(a):
+    """the holder as a specialisation GHolder[annotation]: exercises generic parameter resolution and the cache of
+    specialised classes (kept alive here, as application code keeps its classes alive)"""
+    key = ("generic", repr(a))
+    if key not in _CLS:
+        _CLS[key] = GHolder[ann_to_py(a)]
+    return _CLS[key]
+
+
 def make_class(a, default=MISSING, name="Holder"):
     key = (repr(a), default is not MISSING)
     if default is MISSING and key in _CLS:
